@@ -393,7 +393,7 @@ def _counts(case):
 def _compare(ctx, got, counts, rho, ws, shape, label, **detail):
     """Seven outputs at every wavelength against the reference.  Returns the number of disagreements."""
     import numpy as np
-    from ..ref.neutron import compare7, flatten7
+    from ..ref.neutron import compare7, flatten7, NAMES
     m = _state['model']
     try:
         flat = flatten7(got, shape)
@@ -408,9 +408,12 @@ def _compare(ctx, got, counts, rho, ws, shape, label, **detail):
         obs = [float(x[i]) if shape else float(x) for x in flat]
         bad, worst, floor_only = compare7(obs, ref, floors, rel=REL)
         ctx.evaluated(7, 'outputs')
-        ctx.observe('relerr.worst_passing', worst)
-        if floor_only:
-            ctx.count('outputs_passed_only_by_cancellation_floor', floor_only)
+        for j in range(7):
+            if worst[j]:
+                ctx.observe('relerr.' + NAMES[j], worst[j])
+        for j in floor_only:
+            ctx.count('passed_only_by_cancellation_floor.' + NAMES[j])
+            ctx.observe('floor_fraction_used.' + NAMES[j], abs(obs[j] - ref[j]) / floors[j])
         if bad:
             nbad += 1
             if nbad <= 2:
